@@ -172,6 +172,55 @@ def run_proc(cmd, cwd, env, timeout):
         return -9, out, time.time() - t0, True
 
 
+def pid_of(ff):
+    return str(ff.get("property", "?"))
+
+
+def panic_excerpt(out):
+    i = out.find("panic:")
+    return out[i:i + 2500] if i >= 0 else out[-2500:]
+
+
+def crash_in_code_under_test(out):
+    """True if the test binary died from a Go panic whose first non-runtime frame is not harness code."""
+    i = out.find("panic:")
+    if i < 0 or "[recovered]" in out[i:i + 300]:
+        return False
+    j = out.find("goroutine ", i)
+    if j < 0:
+        return False
+    lines = out[j:].split("\n")[1:]
+    for k in range(0, len(lines) - 1, 2):
+        fn, loc = lines[k], lines[k + 1].strip()
+        if not fn.strip():
+            break
+        if fn.startswith("panic(") or "/runtime/" in loc or fn.startswith("runtime.") or "/src/testing/" in loc:
+            continue
+        return "zz_verif_" not in loc and "/zzverif/" not in loc
+    return False
+
+
+def race_in_code_under_test(out):
+    """True if a race report's two access stacks both top out in non-harness code of the repository."""
+    i = out.find("WARNING: DATA RACE")
+    if i < 0:
+        return False
+    rep = out[i:out.find("==================", i + 20) if out.find("==================", i + 20) > 0 else i + 6000]
+    tops = []
+    for block in re.split(r"\n\n", rep):
+        m = re.match(r"\s*(?:WARNING: DATA RACE\n)?(Read at|Write at|Previous read at|Previous write at)", block)
+        if not m:
+            continue
+        lines = block.strip().split("\n")
+        for k in range(1, len(lines) - 1, 2):
+            loc = lines[k + 1].strip()
+            if "/runtime/" in loc or "/src/sync/" in loc or "/src/internal/" in loc:
+                continue
+            tops.append(loc)
+            break
+    return len(tops) >= 2 and all("zz_verif_" not in t and "/zzverif/" not in t and "/pkg/mod/" not in t for t in tops)
+
+
 class UnitResult:
     def __init__(self):
         self.stats = []
@@ -211,6 +260,9 @@ def run_unit(work, pid, uidx, unit, tier, base_seed, known_fps, replay=None):
         )
         for k, v in tcfg.get("env", {}).items():
             env[k] = str(v)
+        curf = os.path.join(sdir, "curcase.json")
+        if (unit.get("crash_is_violation") or unit.get("race")) and not replay:
+            env["VERIF_CURCASE"] = curf
         if replay:
             env["VERIF_REPLAY"] = replay
         cmd = [binp, "-test.run", "^%s$" % unit["test"], "-test.timeout", "%ds" % (timeout + 30), "-test.count", "1"]
@@ -260,6 +312,34 @@ def run_unit(work, pid, uidx, unit, tier, base_seed, known_fps, replay=None):
                 res.undecided = "unit %s shard %d: harness error %s: %s" % (unit["test"], shard, ff.get("fingerprint"), ff.get("msg", "")[:1500])
             elif res.violation is None:
                 res.violation = (failf, ff.get("fingerprint", "?"), ff.get("msg", ""), out)
+        elif unit.get("race") and race_in_code_under_test(out):
+            # the race detector fired on an access inside the code under test
+            sdir = os.path.dirname(statsf)
+            src = replay if replay else os.path.join(sdir, "curcase.json")
+            if os.path.exists(src) and res.violation is None:
+                ff = json.load(open(src))
+                ff["fingerprint"] = pid_of(ff) + "/data-race"
+                i = out.find("WARNING: DATA RACE")
+                ff["msg"] = "the race detector reported a data race in the code under test:\n" + out[i:i + 3000]
+                crashf = os.path.join(sdir, "racecase.json")
+                json.dump(ff, open(crashf, "w"), indent=1)
+                res.violation = (crashf, ff["fingerprint"], ff["msg"], out)
+            elif res.violation is None:
+                res.undecided = "unit %s shard %d: data race reported but the case was not recorded:\n%s" % (unit["test"], shard, out[-2000:])
+        elif unit.get("crash_is_violation") and crash_in_code_under_test(out):
+            # the process died from a panic raised outside the harness: a crash of the code under test
+            sdir = os.path.dirname(statsf)
+            curf = os.path.join(sdir, "curcase.json")
+            src = replay if replay else curf
+            if os.path.exists(src) and res.violation is None:
+                ff = json.load(open(src))
+                ff["fingerprint"] = pid_of(ff) + "/process-crash"
+                ff["msg"] = "the process died with a panic in the code under test:\n" + panic_excerpt(out)
+                crashf = os.path.join(sdir, "crashcase.json")
+                json.dump(ff, open(crashf, "w"), indent=1)
+                res.violation = (crashf, ff["fingerprint"], ff["msg"], out)
+            elif res.violation is None:
+                res.undecided = "unit %s shard %d: process crashed in the code under test but the case was not recorded:\n%s" % (unit["test"], shard, out[-2000:])
         else:
             tail = out[-3000:]
             res.undecided = "unit %s shard %d: test process exited %d without a failing case (worker death / harness error):\n%s" % (unit["test"], shard, rc, tail)
@@ -365,7 +445,15 @@ def check_property(pid, spec, tier, replay=None, keep=False):
                     violation = (replay, fp, msg)
                 else:
                     # confirm by executing the shrunk case once outside rapid
-                    r2 = run_unit(work + "", pid, 1000 + uidx, unit, tier, base_seed, known_fps, replay=failf)
+                    # schedule-dependent properties get several attempts to reproduce the shrunk case
+                    tries = unit.get("replay_tries", 1)
+                    candidates = [failf] * tries
+                    if tries > 1 and os.path.exists(failf + ".first"):
+                        candidates += [failf + ".first"] * tries
+                    for attempt, cand in enumerate(candidates):
+                        r2 = run_unit(work + "", pid, 1000 + uidx + 100 * attempt, unit, tier, base_seed, known_fps, replay=cand)
+                        if r2.violation:
+                            break
                     if r2.violation:
                         ff = json.load(open(r2.violation[0]))
                         h = hashlib.sha256(json.dumps(ff.get("case"), sort_keys=True).encode()).hexdigest()[:10]
